@@ -23,6 +23,10 @@ pub enum OpKind {
     /// successive calls and count the accepted words of each value whose contiguous fibre is seen completely.
     /// `via`: 0 gen_range, 1 sample_single(_inclusive), 2 Uniform object
     FibreWalk { low: Vec<u8>, high: Vec<u8>, inclusive: bool, via: u8, start: Vec<u8>, up: bool, fibres: u8, max_steps: u32 },
+    /// exact size of the accepted block of chosen values when fibres are astronomically large: locate both ends of
+    /// each block by bisection over first words (boundaries verified locally, interior sampled) and compare sizes.
+    /// `targets`: offsets k (value = low + k) as width-byte little-endian numbers
+    SpanProbe { low: Vec<u8>, high: Vec<u8>, inclusive: bool, via: u8, targets: Vec<Vec<u8>> },
 }
 
 #[derive(Clone, Debug, PartialEq)]
@@ -44,7 +48,7 @@ pub struct RunSpec {
     pub infallible: bool,
     pub fresh_seed: u64,
     pub ops: Vec<Op>,
-    /// generator's label: 0 mixed, 1 cluster, 2 fault-free twin, 3 fibre walk
+    /// generator's label: 0 mixed, 1 cluster, 2 fault-free twin, 3 fibre walk, 4 span probe
     pub mode: u8,
 }
 
@@ -109,6 +113,7 @@ impl Op {
             OpKind::Fill { .. } => "fill",
             OpKind::FillVsElem { .. } => "fill_vs_elementwise",
             OpKind::FibreWalk { .. } => "fibre_walk",
+            OpKind::SpanProbe { .. } => "span_probe",
         }
     }
     pub fn to_json(&self) -> J {
@@ -140,6 +145,13 @@ impl Op {
             OpKind::FillVsElem { len, stream } => {
                 o.put("len", J::u(*len));
                 o.put("stream", J::Str(hex(stream)));
+            }
+            OpKind::SpanProbe { low, high, inclusive, via, targets } => {
+                o.put("low", J::Str(hex(low)));
+                o.put("high", J::Str(hex(high)));
+                o.put("inclusive", J::Bool(*inclusive));
+                o.put("via", J::s(["gen_range", "sample_single", "uniform_sample"][*via as usize % 3]));
+                o.put("target_offsets", J::Arr(targets.iter().map(|t| J::Str(hex(t))).collect()));
             }
             OpKind::FibreWalk { low, high, inclusive, via, start, up, fibres, max_steps } => {
                 o.put("low", J::Str(hex(low)));
@@ -174,6 +186,15 @@ impl Op {
                 let v = j.get("via").and_then(|x| x.str()).ok_or("via")?;
                 let via = [FillVia::TryFillSlice, FillVia::FillTrait, FillVia::RngTryFill, FillVia::RngFill].into_iter().find(|x| via_name(*x) == v).ok_or("bad via")?;
                 OpKind::Fill { len: j.get("len").and_then(|x| x.int()).ok_or("len")? as usize, init: j.get("init").and_then(|x| x.int()).unwrap_or(0) as u8, via }
+            }
+            "span_probe" => {
+                let v = j.get("via").and_then(|x| x.str()).ok_or("via")?;
+                let via = ["gen_range", "sample_single", "uniform_sample"].iter().position(|x| *x == v).ok_or("bad via")? as u8;
+                let mut targets = Vec::new();
+                for t in j.get("target_offsets").and_then(|x| x.arr()).ok_or("target_offsets")? {
+                    targets.push(unhex(t.str().ok_or("target")?)?);
+                }
+                OpKind::SpanProbe { low: hx("low")?, high: hx("high")?, inclusive: bl("inclusive")?, via, targets }
             }
             "fibre_walk" => {
                 let v = j.get("via").and_then(|x| x.str()).ok_or("via")?;
